@@ -13,6 +13,7 @@ fn steer_4096(r: &mut Rng, out: &mut String, b: &str, nkeys: usize) {
     writeln!(out, "remove_range {} in:{} in:{}", b, base, base + 65535).unwrap();
     writeln!(out, "insert_range {} in:{} ex:{}", b, start, end).unwrap();
     writeln!(out, "dump {}", b).unwrap();
+    writeln!(out, "probe {}", b).unwrap();
     for _ in 0..r.range(1, 5) {
         match r.below(6) {
             0 => writeln!(out, "insert {} {}", b, end.min(base + 65535)).unwrap(),
@@ -56,6 +57,9 @@ pub fn queries(r: &mut Rng, out: &mut String, b: &str, nkeys: usize) {
         writeln!(out, "range_cardinality {} {} {}", b, lo, hi).unwrap();
         writeln!(out, "contains_range {} {} {}", b, lo, hi).unwrap();
     }
+    // queries derived from the runs of the value itself (exactly a run, one more on either side, ranks / selects at
+    // its ends)
+    writeln!(out, "probe {}", b).unwrap();
     // ranges spanning several chunks, and everything
     let a = value(r, nkeys) as u64;
     let z = (a + r.range(65536, 4 * 65536)).min(u32::MAX as u64);
